@@ -16,7 +16,7 @@ var (
 	gridSchemes = []string{"https", "http", "HTTPS"}
 	gridHosts   = []string{"example.com", "EXAMPLE.com", "example.com:8443", "other.example", "[2001:db8::1]", "[2001:db8::2]:8443", "[2001:DB8::1]"}
 	gridPaths   = []string{"", "/", "/a", "/a/", "/A", "/a/b", "/a/./b", "/a/c/../b", "/a//b"}
-	gridQueries = []string{"", "?", "?x=1", "?x=1&y=2", "?y=2&x=1", "?x=1&x=1", "?x=1&x=2", "?x=2&x=1", "?x=2", "?next=/", "?next=", "?x=1&p=/a/", "?x=1&p=/a"}
+	gridQueries = []string{"", "?", "?x=1", "?x=1&y=2", "?y=2&x=1", "?x=1&x=1", "?x=1&x=2", "?x=2&x=1", "?x=2", "?next=/", "?next=", "?x=1&p=/a/", "?x=1&p=/a", "?next=https://other.example/x"}
 	gridFrags   = []string{"", "#frag", "#other"}
 )
 
@@ -181,7 +181,7 @@ func init() {
 	n := len(grid)
 	Register(&Prop{
 		ID: "C14",
-		Rule: fmt.Sprintf("exhaustive grid: %d schemes x %d hosts(+port, case) x %d paths (empty, /, trailing slash, case, dot segments, doubled slashes) x %d queries (none, empty, single, reordered pair, repeated key with equal/differing/swapped values) x %d fragments = %d IRIs; every ordered pair x both scheme flags must satisfy a.Equals(b,cs) <=> refKey(a,cs)=refKey(b,cs) (hence reflexive, symmetric, transitive); IRIs.Contains must agree with exists-member-Equals on sampled lists, and for every grid IRI a list holding it (IRI list and item list) must contain exactly the grid IRIs of the same host and path that the reference calls equivalent; a second grid of %d IRIs whose paths and queries hold percent-escaped reserved characters (%%23 %%3F %%2F %%25 %%20, escaped UTF-8) under the same oracle; a third grid of the well-known constants (public collection, ActivityStreams and security context addresses) in 11 presentations each, under the same oracle for Equals and for membership in IRI and item lists; "+
+		Rule: fmt.Sprintf("exhaustive grid: %d schemes x %d hosts(+port, case) x %d paths (empty, /, trailing slash, case, dot segments, doubled slashes) x %d queries (none, empty, single, reordered pair, repeated key with equal/differing/swapped values, a whole URL as a value) x %d fragments = %d IRIs; every ordered pair x both scheme flags must satisfy a.Equals(b,cs) <=> refKey(a,cs)=refKey(b,cs) (hence reflexive, symmetric, transitive); IRIs.Contains must agree with exists-member-Equals on sampled lists, and for every grid IRI a list holding it (IRI list and item list) must contain exactly the grid IRIs of the same host and path that the reference calls equivalent; a second grid of %d IRIs whose paths and queries hold percent-escaped reserved characters (%%23 %%3F %%2F %%25 %%20, escaped UTF-8) under the same oracle; a third grid of the well-known constants (public collection, ActivityStreams and security context addresses) in 11 presentations each, under the same oracle for Equals and for membership in IRI and item lists; "+
 			"seeded random strings and near-URLs are held to reflexivity and symmetry; one case = one row of the grid (a fixed left IRI against all right IRIs) or one random pair; distinct = row / pair; non-trivial = every row (each holds equal and unequal pairs)",
 			len(gridSchemes), len(gridHosts), len(gridPaths), len(gridQueries), len(gridFrags), n, len(escGrid)),
 		Layers: func(tier string) []Layer {
